@@ -63,6 +63,15 @@ class _OsProxy(types.ModuleType):
                 dirs[:] = ctx.walk_tape.shuffle(sorted(dirs), "walk.dirs")
                 files[:] = ctx.walk_tape.shuffle(sorted(files), "walk.files")
                 ctx.count("walk_steps")
+            vanish = ctx.knobs.get("vanish") if ctx else None
+            if vanish:   # probe only: a file disappears between directory listing and read
+                for fn in list(files):
+                    if fn == vanish:
+                        try:
+                            _os.unlink(_os.path.join(root, fn))
+                            ctx.count("fault.vanished")
+                        except OSError:
+                            pass
             yield root, dirs, files
 
 
@@ -247,6 +256,57 @@ def steps_stop() -> int:
     mon.set_events(_TOOL, 0)
     STEPS["cap"] = None
     return STEPS["n"]
+
+
+class _FaultyFile:
+    """File object whose write fails after `after` characters (probe-only: ENOSPC / EIO / crash)."""
+
+    def __init__(self, f, kind, after, ctx):
+        self._f, self._kind, self._left, self._ctx = f, kind, after, ctx
+
+    def write(self, data):
+        if len(data) > self._left:
+            self._f.write(data[: self._left])
+            self._f.flush()
+            self._left = 0
+            self._ctx.count("fault.write_" + self._kind)
+            if self._kind == "kill":
+                _os._exit(137)
+            import errno
+            raise OSError(errno.ENOSPC if self._kind == "enospc" else errno.EIO, _os.strerror(errno.ENOSPC if self._kind == "enospc" else errno.EIO))
+        self._left -= len(data)
+        return self._f.write(data)
+
+    def __getattr__(self, name):
+        return getattr(self._f, name)
+
+    def __enter__(self):
+        return self
+
+    def __exit__(self, *a):
+        return self._f.__exit__(*a)
+
+
+def install_write_fault(prefix: str, kind: str, after: int) -> None:
+    """Probe-only seam: the next text-mode write-open of a path under `prefix` gets a faulty file."""
+    import io
+    real_open = io.open
+    state = {"armed": True}
+
+    def faulty_open(file, mode="r", *a, **kw):
+        f = real_open(file, mode, *a, **kw)
+        try:
+            path = _os.fspath(file)
+        except TypeError:
+            return f
+        if state["armed"] and isinstance(path, str) and _os.path.abspath(path).startswith(prefix) and "w" in mode and "b" not in mode:
+            state["armed"] = False
+            return _FaultyFile(f, kind, after, CTX)
+        return f
+
+    io.open = faulty_open
+    import builtins
+    builtins.open = faulty_open
 
 
 def repo_root() -> str:
